@@ -69,6 +69,7 @@ m("c09-ldd-increments-de",["C09","C01"],"op_exbtsg.go","\tcpu.DE.SetU16(de - 1)"
 m("c09-otir-dec-after-test",["C09"],"op_inout.go","func oopOTIR(cpu *CPU) {\n\tcpu.ioOut(cpu.BC.Lo, cpu.Memory.Get(cpu.HL.U16()))\n\tcpu.BC.Hi--\n\tcpu.HL.SetU16(cpu.HL.U16() + 1)\n\tcpu.updateFlagIObZ()\n\tif cpu.BC.Hi != 0 {","func oopOTIR(cpu *CPU) {\n\tcpu.ioOut(cpu.BC.Lo, cpu.Memory.Get(cpu.HL.U16()))\n\tcpu.HL.SetU16(cpu.HL.U16() + 1)\n\trep := cpu.BC.Hi != 0\n\tcpu.BC.Hi--\n\tcpu.updateFlagIObZ()\n\tif rep {")
 m("c09-ldir-internal-loop",["C09","C12","C07"],"op_exbtsg.go","func oopLDIR(cpu *CPU) {\n\toopLDI(cpu)\n\tif cpu.AF.Lo&maskPV != 0 { // cpu.BC != 0\n\t\tcpu.PC -= 2\n\t}","func oopLDIR(cpu *CPU) {\n\toopLDI(cpu)\n\tfor cpu.AF.Lo&maskPV != 0 { // cpu.BC != 0\n\t\toopLDI(cpu)\n\t}",note="whole transfer in one Step: same final state for programs, but no interrupt/cancel point and no R counting")
 m("c09-ldir-repeat-via-bc-refactor",["C09"],"op_exbtsg.go","func oopLDDR(cpu *CPU) {\n\toopLDD(cpu)\n\tif cpu.AF.Lo&maskPV != 0 {","func oopLDDR(cpu *CPU) {\n\toopLDD(cpu)\n\tif cpu.BC.U16() != 0 {",expect="silent",note="repeat predicate read from BC instead of through P/V: same function")
+m("c10-closure-table-hidden-counter",["C10"],"z80.go","","var stepHooks = func() []func(*CPU) {\n\tn := 0\n\treturn []func(*CPU){func(cpu *CPU) {\n\t\tn++\n\t\tif n&0xffff == 0 {\n\t\t\tcpu.IR.Lo ^= 0x80\n\t\t}\n\t}}\n}()\n",edits=[{"file":"cpu.go","old":"\t// execute an op-code.\n\tcpu.executeOne()","new":"\tcpu.executeOne()\n\tstepHooks[0](cpu)"}],note="state hidden in a variable captured by a closure that package initialisation puts into a table: shared by all CPUs")
 # ---- C11
 m("c11-ld-l-iyd-writes-h",["C11","C01"],"op_load8.go","func xopLDlIYdP(cpu *CPU) {\n\td := cpu.fetch()\n\tp := addrOff(cpu.IY, d)\n\tcpu.HL.Lo = cpu.Memory.Get(p)","func xopLDlIYdP(cpu *CPU) {\n\td := cpu.fetch()\n\tp := addrOff(cpu.IY, d)\n\tcpu.HL.Hi = cpu.Memory.Get(p)")
 m("c11-inc-iyh-decs",["C11","C02"],"op_arith8.go","func oopINCIYH(cpu *CPU) {\n\tv := cpu.incU8(uint8(cpu.IY >> 8))","func oopINCIYH(cpu *CPU) {\n\tv := cpu.decU8(uint8(cpu.IY >> 8))")
@@ -185,6 +186,7 @@ m("c08-deferred-closure-rewrites-result",["C08"],"cpu.go","func (cpu *CPU) Run(c
 m("c08-named-result-refactor",["C08","C13","C12"],"cpu.go","func (cpu *CPU) Run(ctx context.Context) error {\n","func (cpu *CPU) Run(ctx context.Context) (err error) {\n\tdefer func() {\n\t\tif r := recover(); r != nil {\n\t\t\tpanic(r)\n\t\t}\n\t}()\n",expect="silent",note="named result and a deferred closure that re-panics only: same returns")
 m("c12-fixed-trip-loop-refactor",["C12","C13","C09","C01","C05"],"cpu.go","\tl, h := fromU16(v)\n\tcpu.Memory.Set(addr, l)\n\tcpu.Memory.Set(addr+1, h)\n","\tfor i := uint(0); i < 2; i++ {\n\t\tcpu.Memory.Set(addr+uint16(i), uint8(v>>(8*i)))\n\t}\n",expect="silent",note="a loop below Step with a fixed trip count: same accesses in the same order")
 m("c12-data-dependent-loop",["C12","C13"],"cpu.go","\tl, h := fromU16(v)\n\tcpu.Memory.Set(addr, l)\n\tcpu.Memory.Set(addr+1, h)\n","\tl, h := fromU16(v)\n\tcpu.Memory.Set(addr, l)\n\tcpu.Memory.Set(addr+1, h)\n\tfor n := l; n&1 != 0; n >>= 1 {\n\t}\n",note="a loop below Step whose trip count depends on data")
+m("c08-run-adjusts-pc-before-return",["C08","C13"],"cpu.go","\t\tif cpu.HALT {\n\t\t\tbreak\n\t\t}\n\t}\n\treturn nil","\t\tif cpu.HALT {\n\t\t\tbreak\n\t\t}\n\t}\n\tcpu.PC++\n\treturn nil",note="Run moves PC past the HALT opcode before it returns: not a state reached by whole Steps")
 # ---- C16
 m("c16-resetflag-and",["C16"],"flag.go","gpr.AF.Lo &= ^uint8(f)","gpr.AF.Lo &= uint8(f)")
 m("c16-getflag-all-bits",["C16"],"flag.go","return gpr.AF.Lo&uint8(f) != 0","return gpr.AF.Lo&uint8(f) == uint8(f)",note="differs only for combined masks")
